@@ -50,6 +50,11 @@ func (c *msgpackCodec) ReadResponseHeader(r *rpc.Response) error {
 }
 
 func (c *msgpackCodec) ReadResponseBody(body any) error {
+	if body == nil {
+		// net/rpc discards the body of an error response this way, it must
+		// be consumed to keep the stream in step for the calls that follow
+		return c.dec.Skip()
+	}
 	return c.dec.Decode(body)
 }
 
@@ -60,6 +65,10 @@ func (c *msgpackCodec) ReadRequestHeader(r *rpc.Request) error {
 }
 
 func (c *msgpackCodec) ReadRequestBody(body any) error {
+	if body == nil {
+		// net/rpc discards the body of a request it cannot serve this way
+		return c.dec.Skip()
+	}
 	return c.dec.Decode(body)
 }
 
